@@ -13,7 +13,7 @@ import (
 	"verifharness/internal/val"
 )
 
-var c20Floor = []string{"set", "get", "get.unset", "get.after-set-same-row", "get.before-set-same-row", "set.overwrite", "set.expr", "set.literal", "where", "prepopulated", "queries.2", "queries.3+", "keys.multi", "table.empty", "dual", "prebuilt", "order.projected", "order.unprojected", "grouped", "grouped.having", "get.subquery", "opt.callback"}
+var c20Floor = []string{"set", "get", "get.unset", "get.after-set-same-row", "get.before-set-same-row", "set.overwrite", "set.expr", "set.literal", "where", "prepopulated", "queries.2", "queries.3+", "keys.multi", "table.empty", "dual", "prebuilt", "order.projected", "order.unprojected", "grouped", "grouped.having", "get.subquery", "opt.callback", "keys.numeric", "union.derived-right", "union.cte-right", "union.nested-right", "union.plain"}
 
 func init() {
 	fw.Register(&fw.Prop{
@@ -32,6 +32,7 @@ func init() {
 		Phases: []fw.Phase{
 			{Name: "history", N: func(t fw.Tier) int { return pick(t, 10000, 400000) }, Run: c20Run},
 			{Name: "grouped", N: func(t fw.Tier) int { return pick(t, 1000, 30000) }, Run: c20Grouped},
+			{Name: "union", N: func(t fw.Tier) int { return pick(t, 600, 20000) }, Run: c20Union},
 		},
 		Witness: sqlWitness,
 	})
@@ -84,11 +85,24 @@ func c20Run(c *fw.Case) {
 		nk = 2 + c.Intn(3)
 	}
 	keys = keys[:nk]
+	// registers named by numbers (an order id, a literal): SETVAR and GETVAR
+	// mean the same register whatever the number's size
+	numKeys := force == "keys.numeric" || (force == "" && c.Chance(0.08))
+	if numKeys {
+		keys = []string{"1000000", "17", "2500000", "999999"}[:nk]
+		feats = append(feats, "keys.numeric")
+	}
+	keySQL := func(k string) string {
+		if numKeys {
+			return k
+		}
+		return gen.SQLString(k, 0)
+	}
 	if nk > 1 {
 		feats = append(feats, "keys.multi")
 	}
 	vars := map[string]any{}
-	if force == "prepopulated" || c.Chance(0.4) {
+	if !numKeys && (force == "prepopulated" || c.Chance(0.4)) {
 		vars[keys[0]] = gen.Pick(c.R, []any{"init", 7.0, true})
 		if c.Chance(0.5) {
 			vars["other"] = "untouched"
@@ -189,11 +203,11 @@ func c20Run(c *fw.Case) {
 		for i, it := range items {
 			switch it.kind {
 			case "set":
-				parts[i] = "SETVAR(" + gen.SQLString(it.key, 0) + ", " + gen.RenderExpr(it.expr, ro) + ")"
+				parts[i] = "SETVAR(" + keySQL(it.key) + ", " + gen.RenderExpr(it.expr, ro) + ")"
 			case "subget":
-				parts[i] = "(SELECT GETVAR(" + gen.SQLString(it.key, 0) + ") AS g FROM dual) AS " + it.alias
+				parts[i] = "(SELECT GETVAR(" + keySQL(it.key) + ") AS g FROM dual) AS " + it.alias
 			case "get":
-				parts[i] = "GETVAR(" + gen.SQLString(it.key, 0) + ") AS " + it.alias
+				parts[i] = "GETVAR(" + keySQL(it.key) + ") AS " + it.alias
 			default:
 				parts[i] = it.col
 			}
@@ -360,7 +374,20 @@ func c20Run(c *fw.Case) {
 			c.Violate(kind, fmt.Sprintf("query %d: rows differ from the register model: got %s want %s", qi, short(val.Canon(o.Rows), 300), short(val.Canon(want), 300)), det)
 			return
 		}
-		if !val.Equal(vars, model) {
+		sameStore := val.Equal(vars, model)
+		if numKeys {
+			// how a numeric key is spelled in the caller's map is the
+			// library's choice: one entry per register, holding its last value
+			var got, exp []any
+			for _, v := range vars {
+				got = append(got, v)
+			}
+			for _, v := range model {
+				exp = append(exp, v)
+			}
+			sameStore = len(got) == len(exp) && (len(got) == 0 || val.SameMultiset(got, exp))
+		}
+		if !sameStore {
 			c.Feature(feats...)
 			c.Violate("store", fmt.Sprintf("after query %d the caller's map is %s, the model's store is %s", qi, short(val.Canon(vars), 200), short(val.Canon(model), 200)), det)
 			return
@@ -454,4 +481,67 @@ func c20Grouped(c *fw.Case) {
 	if G >= 2 {
 		c.Nontrivial(sql + val.Canon(t.Array()))
 	}
+}
+
+
+// c20Union: registers on both sides of a UNION ALL. The rows of the left
+// branch come first and are evaluated first, whatever the right branch is made
+// of (a derived table, a CTE, a parenthesised union): a counter incremented per
+// row reads 1..n down the result, the right branch sees what the left branch
+// stored last, and the caller's map ends with the right branch's last write.
+func c20Union(c *fw.Case) {
+	t := gen.RandTable(c.R, gen.TableSpec{Name: "t1", MinRows: 1, MaxRows: pick(c.Tier, 8, 20), NumCols: 1, StrCols: 1, StrStyle: gen.Plain})
+	u := gen.RandTable(c.R, gen.TableSpec{Name: "u1", MinRows: 1, MaxRows: 6, NumCols: 1, StrCols: 1, StrStyle: gen.Plain})
+	item := "SETVAR('c', GETVAR('c') + 1), GETVAR('c') AS c, GETVAR('last') AS seen, SETVAR('last', rid)"
+	left := "SELECT rid, " + item + " FROM t1"
+	shapes := []struct{ feat, right string }{
+		{"union.plain", "SELECT rid, " + item + " FROM u1"},
+		{"union.derived-right", "SELECT d.rid, d.c, d.seen FROM (SELECT rid, " + item + " FROM u1) d"},
+		{"union.cte-right", "SELECT rid, c, seen FROM w"},
+		{"union.nested-right", "(SELECT rid, " + item + " FROM u1 UNION ALL SELECT rid, " + item + " FROM u1)"},
+	}
+	sh := shapes[c.Idx%len(shapes)]
+	sql := left + " UNION ALL " + sh.right
+	if sh.feat == "union.cte-right" {
+		sql = "WITH w AS (SELECT rid, " + item + " FROM u1) " + sql
+	}
+	c.Feature(sh.feat)
+	// model: left rows, then right rows (twice for the nested union)
+	var order []map[string]any
+	order = append(order, t.Rows...)
+	order = append(order, u.Rows...)
+	if sh.feat == "union.nested-right" {
+		order = append(order, u.Rows...)
+	}
+	var want []any
+	var last any
+	for i, r := range order {
+		want = append(want, map[string]any{"rid": r["rid"], "c": float64(i + 1), "seen": last})
+		last = r["rid"]
+	}
+	vars := map[string]any{"c": 0.0}
+	doc := DocOf(t, u)
+	o := Run(val.CopyMap(doc), sql, genql.WithVars(vars))
+	c.Evals(1)
+	c.Sample(map[string]any{"sql": sql, "rows": len(order)})
+	det := map[string]any{"sql": sql, "doc": doc, "expected_rows": val.Show(want), "observed": o.Describe(), "observed_store": val.Show(vars)}
+	if !o.OK() {
+		c.Violate("error", fmt.Sprintf("union with registers failed: %v", o.Describe()), det)
+		return
+	}
+	if !val.SameSeq(o.Rows, want) {
+		c.Violate("wrong-value", fmt.Sprintf("rows differ from the register model (left branch first, rows in source order): got %s want %s", short(val.Canon(o.Rows), 300), short(val.Canon(want), 300)), det)
+		return
+	}
+	if !val.Equal(vars["c"], float64(len(order))) || !val.Equal(vars["last"], last) {
+		c.Violate("store", fmt.Sprintf("after Exec the caller's map is %s, the last values written are c=%d last=%v", short(val.Canon(vars), 200), len(order), last), det)
+		return
+	}
+	later := Run(val.CopyMap(doc), "SELECT GETVAR('c') AS c, GETVAR('last') AS l FROM dual", genql.WithVars(vars))
+	if !later.OK() || !val.SameSeq(later.Rows, []any{map[string]any{"c": float64(len(order)), "l": last}}) {
+		det["later"] = later.Describe()
+		c.Violate("store", fmt.Sprintf("a later query given the same map observes %s", short(fmt.Sprint(later.Describe()), 200)), det)
+		return
+	}
+	c.Nontrivial(sql + val.Canon(doc))
 }
